@@ -14,6 +14,9 @@ NONE, CREATED, DIRTY, FLUSHED, SYNCED, BROKEN = 'NONE', 'CREATED', 'DIRTY', 'FLU
 BYTE = frozenset(range(256))
 
 
+from rules import libtab
+
+
 class QueueHooks(QHooks):
     inline_unit = 'qmail-queue.c'
     no_inline = frozenset(['receivedfmt', 'received_setup', 'pidfmt'])
@@ -543,40 +546,12 @@ def run(ctx):
 
     # --- substdo.c allwrite: returns 0 only when len reached 0
     r9 = rep.rule('C01.9-short-writes', 'R-GUARD', 'allwrite retries short writes: return 0 only on loop exit len == 0; flush returns its result')
-    aw = db.fn('substdo.c', 'allwrite')
-    rets = [x for x in aw.all_x() if x.k == 'ret']
-    # the loop that performs the writes: a loop-terminator block whose body reaches the indirect op() call
-    opcalls = [c for c in aw.calls() if c.callee is None]
-    if not opcalls:
-        raise AnalysisBroken('allwrite: indirect write call not found')
-    loopconds = []
-    for bid, b in aw.blocks.items():
-        if b.term and b.term.get('k') in ('while', 'for', 'do') and 'cond' in b.term:
-            loopconds.append((bid, b))
-    for x in rets:
-        v = x.args[0].const if x.args else None
-        if v == 0:
-            # success only by leaving the write loop through its condition (no break/early return)
-            g = aw.guards(x) or []
-            lc = {b.term['cond'] for _, b in loopconds}
-            ok = any(c.id in lc and t is False for c, t in g)
-            r9.check(ok, 'allwrite-return-0-only-via-loop-exit', x.where, 'success return is not dominated by the write loop\'s exit condition')
-        elif v == -1:
-            g = aw.guards(x) or []
-            ok = any(c.strip().k == 'bin' and c.strip().op == '==' and c.strip().args[1].const == -1 and t is True for c, t in g)
-            r9.check(ok, 'allwrite-return--1-needs-w==-1', x.where, 'failure return not guarded by w == -1')
-        else:
-            r9.bad('allwrite-return-other', x.where, 'unexpected return value')
+    for inst, v in sorted(libtab.allwrite_result_sites(db, rep, prog).items()):
+        r9.check(v[0], inst, v[1], v[2], v[3])
     from rules import shortwrite
     for inst, v in sorted(shortwrite.allwrite_sites(db, rep).items()):
         r9.check(v[0], 'allwrite:' + inst, v[1], v[2], v[3])
     r9.expect_min(4)
-    fl = db.fn('substdo.c', 'substdio_flush')
-    okf = False
-    for x in fl.all_x():
-        if x.k == 'ret' and x.args and x.args[0].strip().k == 'call' and x.args[0].strip().callee == 'allwrite':
-            okf = True
-    r9.check(okf, 'flush-returns-allwrite', 'substdo.c:substdio_flush', 'substdio_flush must return allwrite\'s result')
     rep.assume('fsync(fd) makes the file data durable; link() is atomic; directory operations are synchronous (conf-qmail)',
                'substdio_put/bput/copy deliver bytes in order to the bound descriptor',
                '_exit does not return')
